@@ -94,6 +94,14 @@ def rule_eq(ctx: Ctx, rule: str = "eq-fields") -> None:
             ctx.violation(rule, fi.key, construct, "uses `%s`" % norm(bad[0])[:80], where=fi.where)
         else:
             ctx.ok(rule, fi.key, construct)
+        # exact comparison: a tolerance makes equality non-transitive and lets `self - context` remove a term that is
+        # only *nearly* in the context (C07)
+        construct = "%s.__eq__ compares exactly (no tolerance)" % cname
+        tol = [nd for nd in ast.walk(fi.node) if isinstance(nd, ast.Call) and norm(nd.func).split(".")[-1] in ("isclose", "allclose", "approx", "round", "around")]
+        if tol:
+            ctx.violation(rule, fi.key, construct, "uses `%s`: equality with a tolerance is not transitive, and syntactic list difference would drop terms that are merely close" % norm(tol[0])[:70], where=fi.where)
+        else:
+            ctx.ok(rule, fi.key, construct, nontrivial=False)
         # E5: type guard
         construct = "%s.__eq__ rejects operands of another type the same way (isinstance(other, type(self)))" % cname
         guards = [nd for nd in ast.walk(fi.node) if isinstance(nd, ast.Call) and isinstance(nd.func, ast.Name) and nd.func.id == "isinstance"]
